@@ -8,6 +8,7 @@
   oracle evaluates on the implementation's states.
 -/
 import Avt.Lemmas.C04Term
+import Avt.Lemmas.C04ModesFrame
 
 namespace Avt.Props.C04
 open Avt Avt.Spec Avt.Spec.C04 Avt.C04L
@@ -281,5 +282,79 @@ example :
              ⟨[⟨0x240C, exPen⟩, ⟨0x240C, exPen⟩, ⟨0x20, exPen⟩], false⟩]
       ∧ (repSpec exT 2).cursor.col = 2 :=
   ⟨C04_rep exT 2 (by decide), by decide, by decide⟩
+
+/-! ### the modes that steer printing are state: only their setters, the restores and the resets change them -/
+
+/-- **Function level.**  A function for which `setsPrintModes` is false — anything but SM / RM 4,
+    DECSET / DECRST ?7, DECRC / SCORC / DECRST ?1048 / ?1049 (auto-wrap is part of the saved context),
+    the G0 / G1 designations, SO / SI, DECSTR and RIS — leaves auto-wrap mode, insert mode, both
+    designations and the shift state exactly as they were: every terminal state, every geometry, no
+    invariant needed.  In particular cursor placement, DECSTBM, scrolling, erasing, printing, every
+    other mode, entering the alternate screen (?47h / ?1047h / ?1049h), leaving it with ?47l / ?1047l,
+    and XTWINOPS. -/
+theorem C04_print_modes_persist {t t' : Terminal} {f : Function} (hf : setsPrintModes f = false)
+    (h : t.execute f = some t') :
+    t'.autoWrapMode = t.autoWrapMode ∧ t'.insertMode = t.insertMode ∧ t'.charsets = t.charsets
+      ∧ t'.activeCharset = t.activeCharset :=
+  Avt.C04M.frame hf h
+
+/-- **Call level.**  If none of the functions the parser emits for the input (from the parser state
+    the call starts in) sets one of the four, then the fold of `execute` over them, `Vt.feedAll`,
+    `Vt::feed_str` (which ends with `changes()` + `gc()`) and per-character `Vt::feed` all leave the four
+    as they were — which is the oracle's clause `print-modes-persist` (`Spec.C04.checkStep`) in the
+    oracle's own vocabulary, `samePrintModes` (= the four equalities: `Avt.C04M.samePrintModes_iff`). -/
+theorem C04_print_modes_persist_feed {v : Vt} {xs : List Nat}
+    (hf : ∀ f ∈ Frame.emitted v.parser xs, setsPrintModes f = false) :
+    (∀ t', Terminal.foldM' Terminal.execute (Frame.emitted v.parser xs) v.terminal = some t' →
+        samePrintModes v.terminal t' = true)
+    ∧ (∀ v', v.feedAll xs = some v' → samePrintModes v.terminal v'.terminal = true)
+    ∧ (∀ v' ch, v.feedStr xs = some (v', ch) → samePrintModes v.terminal v'.terminal = true)
+    ∧ (∀ c v', xs = [c] → v.feed c = some v' → samePrintModes v.terminal v'.terminal = true) := by
+  have key : ∀ {t t' : Terminal}, Avt.C04M.PSame t t' → samePrintModes t t' = true :=
+    fun h => (Avt.C04M.samePrintModes_iff _ _).mpr h
+  exact ⟨fun _ h => key (Avt.C04M.frame_many hf h),
+         fun _ h => key (Avt.C04M.feedAll_pm xs hf h),
+         fun _ _ h => key (Avt.C04M.feedStr_pm hf h),
+         fun _ _ e h => key (Avt.C04M.feed_pm (by rw [← e]; exact hf) h)⟩
+
+/-- **Resize.**  `Vt::resize` (and `Terminal.resize`, which XTWINOPS performs) moves tab stops, resets
+    the margins on a height change and reflows; the four are as before — the oracle's clause
+    `resize-keeps-print-modes`. -/
+theorem C04_print_modes_persist_resize {v v' : Vt} {ch : Changes} {cols rows : Nat}
+    (h : v.resize cols rows = some (v', ch)) : samePrintModes v.terminal v'.terminal = true :=
+  (Avt.C04M.samePrintModes_iff _ _).mpr (Avt.C04M.vtResize_pm h)
+
+/-! the hypotheses are satisfiable: a 6x3 terminal gets insert mode on (`CSI 4 h`), auto-wrap off
+    (`CSI ?7 l`), G0 = drawing set (`ESC ( 0`) and G1 shifted in (SO) — every one of the four away from
+    its power-on value; then it enters the alternate screen (`CSI ?1047 h`), scrolls (`CSI S`), places
+    the cursor (`CSI 2;3 H`), erases the screen (`CSI 2 J`) and is resized (4x5): none of the emitted
+    functions sets a print mode, and all four are exactly as they were -/
+
+private def exSetup : List Nat :=
+  [0x1b, 0x5b, 0x34, 0x68, 0x1b, 0x5b, 0x3f, 0x37, 0x6c, 0x1b, 0x28, 0x30, 0x0e]
+
+private def exQuiet : List Nat :=
+  [0x1b, 0x5b, 0x3f, 0x31, 0x30, 0x34, 0x37, 0x68, 0x1b, 0x5b, 0x53, 0x1b, 0x5b, 0x32, 0x3b, 0x33, 0x48,
+   0x1b, 0x5b, 0x32, 0x4a]
+
+private def exModes : Option (Vt × Vt × Vt) := do
+  let v ← Vt.new 6 3 none
+  let (v0, _) ← v.feedStr exSetup
+  let (v1, _) ← v0.feedStr exQuiet
+  let (v2, _) ← v1.resize 4 5
+  pure (v0, v1, v2)
+
+example : ∃ v0 v1 v2, exModes = some (v0, v1, v2)
+    ∧ (v0.terminal.autoWrapMode, v0.terminal.insertMode, v0.terminal.charsets, v0.terminal.activeCharset)
+        = (false, true, (.drawing, .ascii), 1)
+    ∧ printModesNonDefault v0.terminal = true
+    ∧ Frame.emitted v0.parser exQuiet = [.decset [.altScreenBuffer], .su 0, .cup 2 3, .ed .all]
+    ∧ (Frame.emitted v0.parser exQuiet).all (fun f => !setsPrintModes f) = true
+    ∧ v1.terminal.activeBufferType = .alternate ∧ v1.terminal.cursor = { col := 2, row := 1 }
+    ∧ samePrintModes v0.terminal v1.terminal = true
+    ∧ (v2.terminal.cols, v2.terminal.rows) = (4, 5)
+    ∧ samePrintModes v0.terminal v2.terminal = true := by
+  refine ⟨_, _, _, rfl, ?_⟩
+  decide
 
 end Avt.Props.C04
